@@ -771,6 +771,38 @@ impl<'tcx> Scan<'tcx> {
                 }
             }
         }
+        // blanket conversions of core: `<T as Into<U>>::into` is `<U as From<T>>::from`, same for TryInto;
+        // the target impl lives in our crates and is only reachable through the blanket impl.
+        let mut via = String::from("null");
+        let conv = if base == "<T as core::convert::Into<U>>::into" {
+            Some(rustc_span::sym::From)
+        } else if base == "<T as core::convert::TryInto<U>>::try_into" {
+            Some(rustc_span::sym::TryFrom)
+        } else {
+            None
+        };
+        if let Some(trsym) = conv {
+            let tys: Vec<Ty<'tcx>> = inst.args.iter().filter_map(|a| a.as_type()).collect();
+            if let (Some(tr), true) = (tcx.get_diagnostic_item(trsym), tys.len() == 2) {
+                let m = tcx
+                    .associated_item_def_ids(tr)
+                    .iter()
+                    .copied()
+                    .find(|d| matches!(tcx.def_kind(*d), DefKind::AssocFn));
+                if let Some(m) = m {
+                    let margs = tcx.mk_args(&[tys[1].into(), tys[0].into()]);
+                    if let Ok(Some(fi)) = Instance::try_resolve(tcx, self.env, m, margs) {
+                        if matches!(fi.def, InstanceKind::Item(_))
+                            && self.is_ours(fi.def_id())
+                            && tcx.is_mir_available(fi.def_id())
+                        {
+                            let id = self.enqueue(fi);
+                            via = js(&id);
+                        }
+                    }
+                }
+            }
+        }
         let targs: Vec<String> = inst
             .args
             .iter()
@@ -789,6 +821,7 @@ impl<'tcx> Scan<'tcx> {
             ("krate", js(&self.crate_name(did))),
             ("targs", jarr(&targs)),
             ("hidden", jarr(&hidden)),
+            ("via", via),
             ("kind", js(&kind)),
         ])
     }
